@@ -116,6 +116,8 @@ def run_stream(res, pid, specs, epoch_times=None, spaces=('lc', 'bc'), max_state
         n = gen.effective_n(spec)
         sp = [w for w in spaces if not (w == 'bc' and spec.get('loci', 1) == 2)]
         case = {'spec': spec, 'spaces': sp, 'epoch_times': epoch_times(spec) if epoch_times else [0.0]}
+        if len(case['epoch_times']) > 1 and len(cases) % 2 == 1:
+            case['k_first'] = True      # enumerate the states first, then read the rate matrices last epoch first
         for w in sp:
             case['rewards_' + w] = default_rewards(spec, w, pops, n)
         cases.append(case)
